@@ -176,6 +176,9 @@ public:
             clear();
             alloc_.deallocate(data_, capacity_);
             data_ = nullptr;
+            // otherwise assignment from a buffer of equal capacity keeps the
+            // null array, and the destructor deallocates with a stale size
+            capacity_ = 0;
         }
     }
 
